@@ -354,6 +354,7 @@ func main() {
 	in := fs.String("in", "", "")
 	out := fs.String("out", "", "")
 	par := fs.Int("j", runtime.NumCPU(), "")
+	per := fs.Int("per", 120, "seconds after which one request counts as hanging")
 	fs.Parse(os.Args[2:])
 	rows, err := run.ReadNDJSON(*in)
 	if err != nil {
@@ -361,7 +362,7 @@ func main() {
 		os.Exit(2)
 	}
 	pool := run.NewPool(mode, *par)
-	resps := pool.Map(rows, 120*time.Second)
+	resps := pool.Map(rows, time.Duration(*per)*time.Second)
 	for i, r := range rows {
 		r["res"] = resps[i]
 	}
